@@ -146,7 +146,43 @@ notes.update({
  'C19e':"after-hook skipped when the context's deadline (possibly shortened by an outer before-hook) has lapsed",
  'C20e':"retry policy consulted a second time inside a trace! field: only when the callsite is enabled (TRACE subscriber)",
 })
+notes.update({
+ 'C01f':"in-flight table keyed by the low 32 bits of the request id: a response for an id that differs from a live call's id only above bit 31 completes that call",
+ 'C02f':"a work budget of 16 read/write passes per dispatch poll; when it runs out after write-side progress no waker is registered: a burst of >= 17 calls leaves requests queued and timers unarmed",
+ 'C03f':"no deadline timer is armed for a call whose deadline is more than two years away, and cancel_request bails out when there is no timer: the Cancel for such an abandoned call is never written",
+ 'C04f':"MaxRequests' re-check after reading a request drops the '- 1' (the request counts itself): a Cancel and a new request read in one poll at the limit - the new request is refused although a slot was freed",
+ 'C05f':"the Stub impl for Channel turns an Ok reply into DeadlineExceeded when the caller is polled after the deadline, although the dispatch processed the reply in time",
+ 'C06f':"server side of C05d: the first request after an idle period is capped by 730 days minus the idle time",
+ 'C07f':"the Retry stub gives a retry whose deadline has already passed a fresh default deadline (now + 10 s)",
+ 'C08f':"an expiry budget of 16 per BaseChannel::poll_next iteration: with >= 17 requests expiring together and a fresh request readable, responses of the rest are still transmitted",
+ 'C09f':"a failed write of the limiter's refusal is only logged: no ChannelError::Write, the channel keeps serving over the failed transport",
+ 'C10f':"the flush flag of C12d/C14e once more: after a half-close the stream ends with the limiter's refusal unflushed",
+ 'C11f':"the client's in-flight gate compares against pending_request_buffer instead of max_in_flight_requests: more requests in flight than the maximum when the buffer is the larger one",
+ 'C12f':"Incoming::max_concurrent_requests_per_channel(0) silently becomes 1",
+ 'C13f':"a yielded channel gives its per-key slot back as soon as its request stream ends (peer hung up) although the application still holds it",
+ 'C14f':"MaxRequests flushes and retries in a loop when the sink is not ready: an unbounded retry inside one poll over a transport whose flush completes without freeing room",
+ 'C15f':"error kind table: the writer searches only the first 16 entries, UnexpectedEof (17) is written as Other",
+ 'C16f':"the deadline serializer subtracts a 1 ms margin with a plain '-': panics when less than 1 ms is left",
+ 'C17f':"trace::Context::new_child fills the rest with Default: a child context loses the Sampled flag, the implementor is handed Unsampled",
+ 'C18f':"set_context returns early for Unsampled requests: under an OpenTelemetry layer behind an untraced caller the server span becomes a root span with a random trace id",
+ 'C19f':"an inherent HookThenServe::before shadows RequestHook::before and folds the hooks in the wrong order - only when .before(a).before(b) is chained on the concrete type",
+ 'C20f':"RoundRobin clones copy the cursor's value instead of sharing it",
+})
 strength={
+ 'C01f':"unknown ids now include ids that agree with live ids in their low 32 bits / all bits but the top one",
+ 'C02f':"burst part in C02: n in {1..300} (thorough ..2049) calls at once to a silent peer, wake-only polling: all transmitted, all fail at the deadline",
+ 'C03f':"abandoned calls with a 10-year deadline (another handle kept alive so that the dispatch keeps running)",
+ 'C04f':"C04 applies the admission rule of C12 when a cancellation has been read (C04-c-still-counted-by-limiter)",
+ 'C05f':"callers with their own handle go through the Stub trait (as generated clients and the stubs do)",
+ 'C06f':"server connections idle for 2 / 500 / 800 days before the first request (start_age_ms)",
+ 'C07f':"caught by C20 (the change is in the retry stub): every attempt must be made with the caller's context, also when its deadline has already passed",
+ 'C08f':"burst part in C06 and C08: n requests expiring together, handlers finishing afterwards, a fresh request arriving",
+ 'C12f':"the limit configured through the Incoming adaptor (limit_via_incoming)",
+ 'C13f':"new event HangUp(i): the peer of a held channel ends its stream, the application polls it once and keeps it",
+ 'C16f':"a panic raised by tarpc (or below it) while the harness prepares or feeds well-typed values outside the guarded runs is a verdict (was: the checker's own crash, exit 2)",
+ 'C17f':"the sampling decision is part of what the grid compares (caller's vs on the wire vs implementor's)",
+ 'C18f':"OpenTelemetry cells with an untraced head caller, Sampled and Unsampled",
+ 'C19f':"106 nestings are additionally chained directly on the concrete types (generated source hooks_concrete.rs)",
  'C01e':"judged a C05 violation (the reply is the call's own and is not delivered) rather than C01: 4 callers over a buffer of 2 added to C05",
  'C05e':"error replies now carry kind TimedOut for even ids; C05 configurations answered with an error",
  'C06e':"requests delivered through a serializing hop (bincode round trip at delivery) in C06, judged against the deadline the peer meant",
